@@ -34,6 +34,9 @@ CLAIMED = {
  'C17': dict(text="For EVERY detector model, number system, configuration and history of updates/resets: the history callback holds exactly one entry per update since the last reset for every tracked variable, entry i being the input, counter, drift flag and the variable's value in the detector state right after update i; the registration chain yields each name once; attaching the callback leaves the detector's state equal to the detector run alone; reset empties the history. ResetStatisticalTest: reset iff p <= alpha and the returned result is the pre-reset one, over all fit/compare/reset sequences. Tied to the code per run on the 13 detectors (history compared with the model's, field by field) and 6 statistical-test detectors.",
              note="Trusted: Coq kernel/vm_compute (theorems are axiom-free); tracked non-scalar objects are recorded by reference and are outside the property's 'scalar statistics'; the statistical test's p-value is an oracle for the reset model; BWSTest excluded from the reset oracle (Monte-Carlo p-value).",
              tech="Coq proof (invariant over operation lists for the generic detector+callback system) + model-vs-code correspondence and per-step monitor"),
+ 'C19': dict(text="Every validator (18 configuration classes / validated constructors + 8 num_bins / window_size sites) modelled in the order its setters run; proved over R and Z: accepted <-> the domain its own error messages state, each ordering constraint (warning < drift level, beta < alpha, alpha_d < alpha_w, 2*num_test_instances <= min_num_instances) rejected whatever the other parameters, and an accepted configuration cannot reach the configuration-dependent raise sites of the update path (ADWIN % clock, KSWIN draw without replacement, RDDM queue capacity, HDDM-W log(1/lambda_)). Per run: boundary grid per parameter (just outside/on/inside, NaN, inf, wrong types), all pairs for ordered parameters, acceptance vs the documented domain and vs the model in binary64, and every accepted configuration operated on in-domain streams filling every window.",
+             note="Trusted: Coq kernel/vm_compute; Reals axioms. Guards on computed statistics are exercised per run, not proved (rounding). Known findings: NaN passes the `value <= bound` style setters of 10 classes (F34-*).",
+             tech="Coq proof (decision procedures lra/lia over the transliterated validators; accepted => raise sites unreachable) + boundary-grid correspondence and operability battery"),
  'C18': dict(text="Closed forms of Mean/EWMA/CircularMean/PrequentialError proved over R for all streams; ring buffer proved to refine a bounded deque for every operation sequence and capacity >= 1; AccuracyQueue counts proved. Model tied to the code on every run (queue transitions exhaustively to closure for capacities 1-3).",
              note="Trusted: Coq kernel + vm_compute; Reals axioms for the R theorems; rounding not covered by R theorems.",
              tech="Coq proof (refinement to a deque by induction over operation lists; closed forms over R) + correspondence check"),
